@@ -53,9 +53,19 @@ def ip_literal(s):
         return None
 
 
+SWEEP_QUICK = ['', '*', '0', '255', '256', '+1']
+SWEEP_THOROUGH = ['', '*', '**', '0', '255', '256', '+1', '-1', '01', '1e1', ' 1', 'é']
+
+
+def sweep(fields):
+    """every four-field string over the given field lattice (complete enumeration)"""
+    import itertools
+    return ['.'.join(t) for t in itertools.product(fields, repeat=4)]
+
+
 def gen_strings(ctx, n):
     r = ctx.rng
-    out = list(V4_EXTRA)
+    out = list(V4_EXTRA) + sweep(SWEEP_QUICK if ctx.quick() else SWEEP_THOROUGH)
     # all field counts 0..6 (count 0 = empty string) with lattice fields
     for k in range(1, 7):
         for _ in range(40 if k != 4 else 0):
@@ -232,7 +242,7 @@ def run(ctx):
         live = [c[1] for c in ctx.replay['cases'] if c[0] == 'live']
     else:
         strings = gen_strings(ctx, 12000 if ctx.quick() else 80000)
-        live = gen_live(ctx, 40 if ctx.quick() else 150, 600 if ctx.quick() else 4000)
+        live = gen_live(ctx, 40 if ctx.quick() else 80, 600 if ctx.quick() else 1500)
 
     # ---------------------------------------------------------------- (a) the parser
     n_bad = 0
@@ -337,6 +347,7 @@ def run(ctx):
         'samples': parse_samples[40:44] + live_samples[:4],
         'input_classes': classes,
         'exhaustive': False,
+        'exhaustive_sub_sweep': f'all {len(sweep(SWEEP_QUICK if ctx.quick() else SWEEP_THOROUGH))} four-field strings over the lattice {SWEEP_QUICK if ctx.quick() else SWEEP_THOROUGH} are included (complete enumeration of that sub-lattice); the rest is sampled',
         'live_scenarios': len(live),
         'live_probes': n_probes,
     })
